@@ -41,7 +41,7 @@ class ZoneResult:
         self.sites.append(kw)
 
 
-def check_zone(bodies, confirmed=None, param_ranges=None, only_kinds=None, call_discharge=None):
+def check_zone(bodies, confirmed=None, param_ranges=None, only_kinds=None, call_discharge=None, keep_iv=False):
     """bodies: iterable of Body.  confirmed: {(fn path, kind, ordinal): reason}."""
     confirmed = confirmed or {}
     res = ZoneResult()
@@ -63,7 +63,7 @@ def check_zone(bodies, confirmed=None, param_ranges=None, only_kinds=None, call_
             key = (b.path, kind, o)
             if not ok and key in confirmed:
                 ok, why = True, "confirmed: " + confirmed[key]
-            res.add(kind=kind, body=b, bb=bb, line=t.line, ok=ok, why=why, key=key)
+            res.add(kind=kind, body=b, bb=bb, line=t.line, ok=ok, why=why, key=key, iv=iv if keep_iv else None)
         for bb, t, k in calls:
             kind = "call:" + k + ":" + t.callee.split("::")[-1]
             if only_kinds and not any(kind.startswith(x) for x in only_kinds):
@@ -87,7 +87,7 @@ def check_zone(bodies, confirmed=None, param_ranges=None, only_kinds=None, call_
             key = (b.path, kind, o)
             if not ok and key in confirmed:
                 ok, why = True, "confirmed: " + confirmed[key]
-            res.add(kind=kind, body=b, bb=bb, line=t.line, ok=ok, why=why, key=key)
+            res.add(kind=kind, body=b, bb=bb, line=t.line, ok=ok, why=why, key=key, iv=iv if keep_iv else None)
     return res
 
 
